@@ -10,6 +10,7 @@
 from .cfg import CFG
 from .facts import Broken, callee_name, span_loc
 from .mirq import DefUse, operand_place
+from .inline import inline_call
 
 GATE_FNS = ["get_message", "get_downlink_format", "get_icao"]
 
@@ -21,6 +22,22 @@ def _calls_to(body, suffix):
         if n == suffix or n.endswith("::" + suffix):
             out.append((bb, t))
     return out
+
+
+def _reach_names(facts, start):
+    """names of all functions transitively called from body `start` (crate-local bodies are followed)"""
+    seen, st = set(), [start]
+    while st:
+        n = st.pop()
+        b = facts.bodies.get(n)
+        if b is None:
+            continue
+        for _, t in b.calls():
+            c = callee_name(t)
+            if c and c not in seen:
+                seen.add(c)
+                st.append(c)
+    return seen
 
 
 class Region:
@@ -38,46 +55,67 @@ class Region:
         holders = [b for b in holders if not b.name.endswith("get_message")]
         if len(holders) != 1:
             raise Broken("line-loop anchor: get_message is called from %d bodies (%s)" % (len(holders), [b.name for b in holders]))
-        self.proc = holders[0]
+        cur = holders[0]
+        self.inlined = []
+        # climb to the body whose loop contains the (inlined) call of get_message
+        for depth in range(5):
+            cfg = CFG(cur)
+            gm = [bb for bb, _ in _calls_to(cur, "get_message")]
+            if len(gm) != 1:
+                raise Broken("line-loop anchor: %d calls to get_message in %s" % (len(gm), cur.name))
+            inside = [(h, blks) for h, blks in cfg.loops().items() if gm[0] in blks]
+            if inside:
+                break
+            callers = []
+            for b in facts.bodies.values():
+                if b.kind == "promoted" or "::tests::" in b.name:
+                    continue
+                for bb, t in b.calls():
+                    if callee_name(t) == cur.name:
+                        callers.append((b, bb))
+            if len(callers) != 1:
+                raise Broken("line-loop anchor: helper %s has %d call sites" % (cur.name, len(callers)))
+            lb, cbb = callers[0]
+            self.inlined.append(cur.name)
+            cur = inline_call(lb, cbb, cur)
+        else:
+            raise Broken("line-loop anchor: no loop around the per-line processing")
+        # the other gates may sit in helpers called from the loop: inline those too
+        for g in GATE_FNS[1:]:
+            for depth in range(4):
+                cfg = CFG(cur)
+                gm = [bb for bb, _ in _calls_to(cur, "get_message")][0]
+                h, blks = min([(h, blks) for h, blks in cfg.loops().items() if gm in blks], key=lambda x: len(x[1]))
+                if [bb for bb, _ in _calls_to(cur, g) if bb in blks]:
+                    break
+                cands = []
+                for bb in sorted(blks):
+                    t = cur.blocks[bb]["term"]
+                    if t["k"] != "call" or not t["callee"].get("local"):
+                        continue
+                    cb = facts.bodies.get(callee_name(t))
+                    if cb is None or cb.name.split("::")[-1] in GATE_FNS:
+                        continue
+                    reachb = facts.reachable_from(cb.name) if hasattr(facts, "reachable_from") else _reach_names(facts, cb.name)
+                    if any(n == g or n.endswith("::" + g) for n in reachb):
+                        cands.append((bb, cb))
+                if len(cands) != 1:
+                    break
+                self.inlined.append(cands[0][1].name)
+                cur = inline_call(cur, cands[0][0], cands[0][1])
+        self.proc = cur
         self.cfg = CFG(self.proc)
         gm_bb = _calls_to(self.proc, "get_message")[0][0]
         loops = self.cfg.loops()
         inside = [(h, blks) for h, blks in loops.items() if gm_bb in blks]
+        h, blks = min(inside, key=lambda x: len(x[1]))
         self.helper = None
-        if inside:
-            # innermost loop containing the call
-            h, blks = min(inside, key=lambda x: len(x[1]))
-            self.loop_body = self.proc
-            self.loop_cfg = self.cfg
-            self.header = h
-            self.blocks = set(blks)
-            self.entry = h
-        else:
-            # helper extraction: the whole body is the per-line region; the loop is in its caller
-            callers = []
-            for b in facts.bodies.values():
-                if b.kind == "promoted":
-                    continue
-                for bb, t in b.calls():
-                    if callee_name(t) == self.proc.name:
-                        callers.append((b, bb))
-            if len(callers) != 1:
-                raise Broken("line-loop anchor: helper %s has %d call sites" % (self.proc.name, len(callers)))
-            lb, cbb = callers[0]
-            lcfg = CFG(lb)
-            ins = [(h, blks) for h, blks in lcfg.loops().items() if cbb in blks]
-            if not ins:
-                raise Broken("line-loop anchor: no loop around the per-line processing")
-            h, blks = min(ins, key=lambda x: len(x[1]))
-            self.helper = self.proc
-            self.loop_body = lb
-            self.loop_cfg = lcfg
-            self.header = h
-            self.blocks = set(self.cfg.reach)  # region = whole helper body
-            self.loop_blocks = set(blks)
-            self.entry = 0
-        if self.helper is None:
-            self.loop_blocks = self.blocks
+        self.loop_body = self.proc
+        self.loop_cfg = self.cfg
+        self.header = h
+        self.blocks = set(blks)
+        self.entry = h
+        self.loop_blocks = self.blocks
         self.du = DefUse(self.proc)
 
     # -- region graph: successors inside the region, back edges to the header cut
@@ -115,7 +153,17 @@ class Region:
         """edges (switch_bb -> target) taken when the Option/Result returned by the call at call_bb is Some/Ok"""
         t = self.proc.blocks[call_bb]["term"]
         dest = t["dest"]["local"]
+        return self.some_edges_of_local(dest, 1)
+
+    def some_edges_of_local(self, dest, some_val):
         edges = []
+        # `call()?` : the result is handed to Try::branch, whose Continue (variant 0) arm is the Some/Ok edge
+        for bi in self.blocks:
+            tt = self.proc.blocks[bi]["term"]
+            if tt["k"] == "call" and tt["callee"].get("name") == "branch" and tt["args"]:
+                pl = operand_place(tt["args"][0])
+                if pl and pl["local"] == dest and not pl["proj"] and not tt["dest"]["proj"]:
+                    edges.extend(self.some_edges_of_local(tt["dest"]["local"], 0))
         for bi in self.blocks:
             blk = self.proc.blocks[bi]
             dl = None
@@ -128,12 +176,12 @@ class Region:
                 if pl and pl["local"] == dl:
                     some_t = None
                     for v, b in tt["targets"]:
-                        if int(v) == 1:
+                        if int(v) == some_val:
                             some_t = b
                     if some_t is None:
                         # `switch [0: none] otherwise some`
                         vals = [int(v) for v, _ in tt["targets"]]
-                        if vals == [0]:
+                        if vals == [1 - some_val]:
                             some_t = tt["otherwise"]
                     if some_t is not None:
                         edges.append((bi, some_t, tt))
@@ -173,6 +221,16 @@ class Region:
             if e:
                 out.append((bi, t, e))
         return out
+
+    def state_effects(self, e, counters=True):
+        """the part of an effect set that touches the table, a row, or (optionally) the counters; fields that only
+        drive the display clock (effects.display_only_fields) are not state"""
+        if not hasattr(self, "_display_only"):
+            from .effects import display_only_fields
+            self._display_only = display_only_fields(self.facts, self.eff, "AppCounters")
+        adts = ("Plane", "Planes", "AppCounters") if counters else ("Plane", "Planes")
+        return [x for x in e if x[0] in ("table", "btree") or (
+            x[0] == "field" and x[1].split("::")[-1] in adts and not (x[1].split("::")[-1] == "AppCounters" and x[2] in self._display_only))]
 
     def loc(self, bb):
         return span_loc(self.proc.blocks[bb]["term"].get("span"))
